@@ -1,5 +1,5 @@
 #!/bin/bash
-# For each fixed finding: revert its fix commit in /repo (working tree only), replay the reproducer (must fail), restore.
+# For each fixed finding: in a SCRATCH worktree of /repo revert its fix commit, replay the reproducer there (must fail), remove it.
 set -u
 cd /verif
 /venv/bin/python - <<'PY' > /tmp/_fixed.txt
@@ -8,10 +8,14 @@ for k in json.load(open('/verif/known_findings.json'))['findings']:
     if k['status']=='fixed': print(k['id'],k['commit'],k['reproducer'],k['signature'].replace(' ','_'))
 PY
 while read id commit rep sig; do
-  test -z "$(git -C /repo status --porcelain)" || { echo "/repo dirty"; exit 2; }
-  git -C /repo revert --no-commit $commit >/dev/null 2>&1 || { echo "$id: revert failed"; git -C /repo revert --abort 2>/dev/null; git -C /repo reset -q --hard; continue; }
-  out=$(/venv/bin/python run.py replay $rep --expect "$sig" | tail -2 | tr '\n' ' ')
-  git -C /repo revert --abort 2>/dev/null; git -C /repo reset -q --hard
-  echo "$id $commit reverted -> $out" | cut -c1-200
+  wt=$(mktemp -d /tmp/revchk_XXXX); rmdir $wt
+  git -C /repo worktree add -q --detach $wt HEAD
+  if git -C $wt revert --no-commit $commit >/dev/null 2>&1; then
+    out=$(VERIF_REPO=$wt /venv/bin/python run.py replay $rep --expect "$sig" | tail -2 | tr '\n' ' ')
+    echo "$id $commit reverted -> $out" | cut -c1-200
+  else
+    echo "$id: revert of $commit does not apply cleanly on HEAD (later commits touch the same lines)"
+  fi
+  git -C /repo worktree remove --force $wt
 done < /tmp/_fixed.txt
 rm -f /tmp/_fixed.txt
